@@ -1,12 +1,13 @@
 // Native replay of a solver counterexample: the same harness body, the real unstubbed code.
-// usage: verif-replay <harness> <hex,hex,...>   (one hex string per kani::any() call, in order)
+// usage: verif-replay <crate> <module::harness> <hex,hex,...>
+//        (one hex string per kani::any() call, in order)
 fn main() {
     let args: Vec<String> = std::env::args().collect();
-    if args.len() != 3 {
-        eprintln!("usage: verif-replay <module::harness> <hex[,hex...]>");
+    if args.len() != 4 {
+        eprintln!("usage: verif-replay <pumpkin-solver|drcp-format> <module::harness> <hex[,hex...]>");
         std::process::exit(4);
     }
-    let values: Vec<Vec<u8>> = args[2]
+    let values: Vec<Vec<u8>> = args[3]
         .split(',')
         .filter(|s| !s.is_empty())
         .map(|h| {
@@ -16,6 +17,13 @@ fn main() {
                 .collect()
         })
         .collect();
-    let code = pumpkin_solver::verif_replay_entry(&args[1], values);
+    let code = match args[1].as_str() {
+        "pumpkin-solver" => pumpkin_solver::verif_replay_entry(&args[2], values),
+        "drcp-format" => drcp_format::verif_replay_entry(&args[2], values),
+        other => {
+            eprintln!("unknown crate {other}");
+            4
+        }
+    };
     std::process::exit(code);
 }
